@@ -25,7 +25,7 @@ SPEC = {
              "dtype complex128/complex64); distinct = those classes; non-trivial = every case"),
     "boundscheck": {"quick": True, "thorough": True},
     "case_timeout": 300.0,
-    "deciding_monitors": ["update:PowerMethod"],
+    "deciding_monitors": ["update:PowerMethod", "in:layout:F", "in:layout:strided", "in:complex64"],
     "assumptions": ["all-zero k-space is outside the statement (0/0 phase reference)"],
 }
 
